@@ -42,6 +42,31 @@ def direct_sound_oracle(ctx):
     mono = r.collect_energy_receiver_mono(scenes.coords(recs)).time
     mono_d = r.collect_energy_receiver_mono(scenes.coords(recs), direct_sound=True).time
     ctx.oracle_evals += 2
+    # several receivers in ONE call, near ones first: nothing may reach a receiver before its own
+    # direct path (every reflected path is longer), whatever the other receivers of the call are
+    sc_l = dict(sc, S=sc['long_bins'] + 5)
+    r_l = energy.run_all(sc_l)
+    S_l = np.asarray(r_l._energy_exchange_etc).shape[-1]
+    diag = float(np.linalg.norm(sc['sides']))
+    inside = [scenes.gen_point_inside(ctx.rng, sc['sides'], margin=0.1) for _ in range(3)]
+    order_ = np.argsort([np.linalg.norm(p - src) for p in inside])
+    set_ = np.array([inside[i] for i in order_] + [src + np.array([0.9 * diag, 0.2, 0.1])])
+    mono_set = r_l.collect_energy_receiver_mono(scenes.coords(set_)).time
+    ctx.oracle_evals += 1
+    cdt = r_l.speed_of_sound * r_l._etc_time_resolution
+    pc = np.asarray(r_l.patches_center)
+    b0 = np.floor(np.linalg.norm(pc - src, axis=1) / cdt)
+    for k in range(len(set_)):
+        # earliest possible bin: source leg floored + receiver leg ceiled, over all patches; every
+        # further leg of a higher order is floored too and can gain at most one bin
+        bk = np.ceil(np.linalg.norm(pc - set_[k], axis=1) / cdt)
+        nb_k = int((b0 + bk).min()) - max(int(sc['K']), 0) - 1      # one bin of slack for rounding at bin edges
+        early = np.nonzero(mono_set[k][:, :max(0, min(nb_k, S_l))].any(axis=0))[0]
+        if len(early):
+            ctx.violation('energy-before-first-possible-arrival',
+                          'receiver %d of a set of %d shows energy in bin %d; the shortest source-patch-receiver time of flight is %d bins' % (k, len(set_), int(early[0]), nb_k),
+                          dict(energy.scene_input(sc_l), recs=set_), {'first_bin': int(early[0])}, {'first_possible_bin': nb_k})
+            return
     for k in range(len(recs)):
         rr = float(np.linalg.norm(recs[k] - src))
         nb = int(rr / r.speed_of_sound / r._etc_time_resolution)
